@@ -71,6 +71,7 @@ func (c14Checker) Run(tp *Tapes, opt RunOpt) *Outcome {
 		if err != nil {
 			return nil, err.Error()
 		}
+		sp.ApplyTplOptions(tpl)
 		out.Execs++
 		r := w.Exec(tpl, ep, w.BuildCtx(d), sp.Blocks)
 		out.dig(r.String())
@@ -304,6 +305,7 @@ func (c14Checker) Run(tp *Tapes, opt RunOpt) *Outcome {
 		if cerr != nil {
 			return "", cerr, ""
 		}
+		sp.ApplyTplOptions(tpl)
 		out.Execs++
 		defer func() {
 			if p := recover(); p != nil {
@@ -363,6 +365,7 @@ func (c14Checker) Run(tp *Tapes, opt RunOpt) *Outcome {
 		set := w.NewProgSet(sp, "P", loaderKind)
 		tpl, terr := set.FromFile(sp.Main)
 		if terr == nil {
+			sp.ApplyTplOptions(tpl)
 			opn := 0
 			on := func(ep int, plan []FaultSpec) *ExecResult {
 				for i := range plan {
